@@ -15,6 +15,13 @@ import sys, os, json, time, random, importlib, traceback, re
 sys.path.insert(0, os.path.join(os.path.dirname(os.path.abspath(__file__)), 'harness'))
 from common import *
 
+WHOLE_PACKET_KERNELS = ['G1_frag', 'G3_move', 'G4_seq', 'G5_bits', 'G6_int', 'G8_data', 'G9_errors', 'G11_codegen', 'G13_deferred', 'G13b_deferred_ops',
+                        'G15_init', 'G15b_init_structural', 'G16_ref', 'G16b_optional', 'G16c_prototype', 'G17_builder', 'G18_conditions',
+                        'G19_field_ctor', 'G20a_frag_misc', 'G20b_packet_misc']
+WHOLE_PACKET_TARGETS = ['Bridge/FragBridge.vo', 'Bridge/MoveBridge.vo', 'Bridge/BitsBridge.vo', 'Bridge/IntBridge.vo', 'Bridge/DataBridge.vo',
+                        'Bridge/ErrorsBridge.vo', 'Bridge/CodegenBridge.vo', 'Bridge/DeferredBridge.vo', 'Bridge/InitBridge.vo', 'Bridge/RefBridge.vo',
+                        'Bridge/PlumbingBridge.vo', 'Bridge/MiscFragBridge.vo', 'Bridge/MiscPacketBridge.vo']
+
 
 def count_lemmas(vfile):
     try:
@@ -40,9 +47,15 @@ def main():
 
     # ---- 1. Tie A + theorems
     # checks whose correspondence goes through Model/Canon.v also re-check the comparator lemmas (Proofs/CanonProofs.v)
-    targets = mod.TARGETS + (['Proofs/CanonProofs.vo'] if hasattr(mod, 'pktcases') else [])
+    kernels, prop_targets = list(mod.KERNELS), list(mod.TARGETS)
+    if getattr(mod, 'WHOLE_PACKET', False):
+        # a property about whole packets over random declarations depends on all of the pack / unpack machinery: every kernel of it is
+        # part of this property's Tie A (seeded changes outside a narrower list had been missed outright: S81, S85, S88, S90)
+        kernels = list(dict.fromkeys(kernels + WHOLE_PACKET_KERNELS))
+        prop_targets = list(dict.fromkeys(prop_targets + WHOLE_PACKET_TARGETS))
+    targets = prop_targets + (['Proofs/CanonProofs.vo'] if hasattr(mod, 'pktcases') else [])
     build = regen_and_build(targets)
-    gen_bad = {k: r['error'] for k, r in build['gen'].items() if k in mod.KERNELS and not r['ok']}
+    gen_bad = {k: r['error'] for k, r in build['gen'].items() if k in kernels and not r['ok']}
     for k, e in gen_bad.items():
         problems.append(dict(kind='translator', kernel=k, what=f"Tie A: kernel {k} no longer matches its template: {e}"))
     if not build['ok']:
@@ -55,7 +68,7 @@ def main():
         for name, closed, text in theorems:
             if not closed and not text.startswith('Section Variables'):
                 problems.append(dict(kind='assumptions', what=f"theorem {name} is not closed under the global context: {text}"))
-    bridge_files = [t[:-1] for t in mod.TARGETS if t.startswith('Bridge/')]
+    bridge_files = [t[:-1] for t in prop_targets if t.startswith('Bridge/')]
     n_bridge = sum(count_lemmas(b) for b in bridge_files)
     obligations = len(theorems) + n_bridge
     discharged = 0
@@ -126,10 +139,10 @@ def main():
     # ---- 5. evidence
     cov = dict(
         obligations=obligations, discharged=discharged,
-        checker_cmd=f"cd {COQ} && python3 ../harness/pygen.py && make -k -j{NPROC} {' '.join(mod.TARGETS)} && coqc -Q . Bisturi {mod.PROP_FILE}",
+        checker_cmd=f"cd {COQ} && python3 ../harness/pygen.py && make -k -j{NPROC} {' '.join(prop_targets)} && coqc -Q . Bisturi {mod.PROP_FILE}",
         trusted_base=TRUSTED_BASE + getattr(mod, 'TRUSTED_EXTRA', []),
         theorems=[dict(name=n, closed=c, assumptions=t) for n, c, t in theorems],
-        bridge_lemmas=n_bridge, kernels={k: build['gen'][k] for k in mod.KERNELS if k in build['gen']},
+        bridge_lemmas=n_bridge, kernels={k: build['gen'][k] for k in kernels if k in build['gen']},
         evaluations=r.get('evaluations', 0), distinct_nontrivial=r.get('distinct_nontrivial', 0),
         rule=r.get('rule', ''), samples=r.get('samples', [])[:6],
         exhaustive=bool(r.get('exhaustive', False)),
